@@ -40,7 +40,7 @@ pub fn build(case: &Value) -> Vec<u8> {
     let kinds: Vec<&str> = case["kinds"].as_array().unwrap().iter().map(|k| k.as_str().unwrap()).collect();
     let trail = case["sep"][n - 1].as_u64().unwrap() == 1;
     let filter = match case["filter"].as_str().unwrap() { "none" => Filter::None, "flate" => Filter::Flate, _ => Filter::HexFlate };
-    let hdrsep = match case["hdrsep"].as_str().unwrap() { "sp" => " ", "nl" => "\n", _ => "\r\n " };
+    let hdrsep = match case["hdrsep"].as_str().unwrap() { "sp" => " ", "nl" => "\n", "tight" => "tight", _ => "\r\n " };
     let lenstore = case["lenstore"].as_str().unwrap();
     let mut d = Doc::new(b"");
     let mut e: Vec<(u64, XEntry)> = vec![(0, XEntry::Free { next: 0, gen: 65535 })];
